@@ -28,6 +28,8 @@ pub struct ElfSpec {
     /// section table and section-name strings live in an extra page at the end of the file,
     /// which the loader does not map
     pub sections_at_end: bool,
+    /// an allocated, non-executable PROGBITS section (.rodata) precedes .text in the section table
+    pub rodata_before_text: bool,
 }
 
 #[derive(Clone, Debug)]
@@ -194,6 +196,12 @@ pub fn build(spec: &ElfSpec) -> ElfImage {
         let base = shoff as usize;
         shdr(&mut f, base + i * 64, 0, 0, 0, 0, 0, 0, 0, 0);
         i += 1;
+        if spec.rodata_before_text {
+            // reuses the name ".text" minus the dot-t: points at "text" inside the string table; the
+            // name is irrelevant, type/flags are what matters: PROGBITS, ALLOC, not EXECINSTR
+            shdr(&mut f, base + i * 64, n_text + 1, 1, 2, 0x300, 0x40, 0, 1, 0);
+            i += 1;
+        }
         shdr(&mut f, base + i * 64, n_text, 1, 2 | 4, text_off, text_len, 0, 16, 0);
         i += 1;
         if spec.build_id.is_some() {
